@@ -35,8 +35,12 @@ Pair == {HonestSigner("A", "spc", "m1"), HonestSigner("A", "spc", "m2"), HonestS
 Cts == IF Tier = "q" THEN {"data", "spc"} ELSE {"data", "spc", "other"}
 E3Signers == {HonestSigner("E3", ct, m) : ct \in {"data", "spc"}, m \in {"m1", "m2"}}
              \cup {[HonestSigner("E3", ct, m) EXCEPT !.sigKey = "forge_e3"] : ct \in {"data", "spc"}, m \in {"m1", "m2"}}
-Init == /\ done = FALSE /\ cert \in CertNames \cup {"E3"}
-        /\ \/ /\ img = "-" /\ cert = "E3" /\ \E s \in E3Signers, ct \in {"data", "spc"}, co \in {"none", "m1", "m2"} : blob = [ct |-> ct, content |-> co, signers |-> <<s>>]
+(* alg "sha384sig" / "sha512sig": digest algorithm and message digest say SHA-256, the RSA signature over the attributes was made with SHA-384 / SHA-512 *)
+SxSigners == {HonestSigner(n, ct, m) : n \in {"S3", "S5"}, ct \in {"data", "spc"}, m \in {"m1", "m2"}}
+             \cup {[HonestSigner(n, ct, m) EXCEPT !.alg = a] : n \in {"S3", "S5"}, ct \in {"data", "spc"}, m \in {"m1", "m2"}, a \in {"sha384sig", "sha512sig"}}
+Init == /\ done = FALSE /\ cert \in CertNames \cup {"E3", "S3", "S5"}
+        /\ \/ /\ img = "-" /\ cert \in {"S3", "S5"} /\ \E s \in SxSigners, ct \in {"data", "spc"}, co \in {"none", "m1", "m2"} : blob = [ct |-> ct, content |-> co, signers |-> <<s>>]
+           \/ /\ img = "-" /\ cert = "E3" /\ \E s \in E3Signers, ct \in {"data", "spc"}, co \in {"none", "m1", "m2"} : blob = [ct |-> ct, content |-> co, signers |-> <<s>>]
            \/ /\ img = "-" /\ \E s \in Signers, ct \in Cts, co \in {"none", "m1", "m2"} : blob = [ct |-> ct, content |-> co, signers |-> <<s>>]
            \* an encapsulated content of length zero is a content (it is not "detached"): a signer info bound to other content does not cover it
            \/ /\ img = "-" /\ \E s \in HonestBase \cup {x \in Signers0 : x.sigOver = "attrs_as_encoded" /\ x.order = "canonical"}, ct \in Cts :
@@ -45,6 +49,7 @@ Init == /\ done = FALSE /\ cert \in CertNames \cup {"E3"}
            \/ /\ img \in {"I1", "I2"} /\ \E s \in Pair, co \in {"m1", "m2"} : blob = [ct |-> "spc", content |-> co, signers |-> <<s>>]
            \/ /\ img \in {"I1", "I2"} /\ \E s \in Pair, t \in Pair, co \in {"m1", "m2"} : blob = [ct |-> "spc", content |-> co, signers |-> <<s, t>>]
         /\ (cert = "E3" => img = "-" /\ \A i \in 1..Len(blob.signers) : blob.signers[i] \in E3Signers)
+        /\ (cert \in {"S3", "S5"} => img = "-" /\ \A i \in 1..Len(blob.signers) : blob.signers[i] \in SxSigners)
 Next == ~done /\ done' = TRUE /\ UNCHANGED <<blob, cert, img>>
 Sound == NoOtherKey(blob, Cert(cert)) /\ ContentBound(blob, Cert(cert)) /\ TwinRejected(blob)
 ImgExpect == IF img = "-" THEN Expect(blob, Cert(cert))
